@@ -98,9 +98,9 @@ func init() {
 
 func c01Depth(tier string) int {
 	if tier == "thorough" {
-		return 3
+		return 4
 	}
-	return 2
+	return 3
 }
 
 type c01Calls struct {
